@@ -5,6 +5,7 @@ import ast
 from .core import AnalysisError, unparse, where
 from .cfg import _walk_no_nested
 from .seq import gen_cfg, yields_of
+from .normal import normalise
 
 LOC = "dali.memory.location"
 
@@ -105,9 +106,23 @@ def const_arg(y, i):
     return None
 
 
+# functions of dali/memory/location.py the rules know by name: they are
+# analysed as units; anything else reachable through self./cls./a bare name
+# (a helper introduced by a refactoring) is inlined first
+PRIMITIVES = (
+    "MemoryRange", "_DTR0", "_DTR1", "_EnableWriteMemory",
+    "_QueryContentDTR0", "_ReadMemoryLocation", "_WriteMemoryLocation",
+    "_WriteMemoryLocationNoReply", "_add_memory_value", "address",
+    "check_raw", "default", "factory_default_contents", "from_list",
+    "has_latch", "has_lock", "is_addressable", "is_locked", "is_valid",
+    "last_address", "latch", "raw_to_value", "read", "read_all", "read_raw",
+    "reset", "type_", "unlatch", "value_to_raw", "write", "write_raw")
+
+
 def method_cfg(world, cls_qname, name):
     r = world.method(cls_qname, name)
-    fn = r[2]
+    fn = normalise(r[2], world, LOC, world.cls(cls_qname),
+                   primitives=PRIMITIVES)
     q = "%s.%s" % (cls_qname, name)
     cfg = gen_cfg(fn, q)
     ys = yields_of(cfg, world, LOC)
